@@ -13,6 +13,7 @@ THEOREMS = [
     ("EG.props.C11", "C11_refuted_pipeline_foreign_kind"),
     ("EG.props.C11", "C11_unchanged_apply_noop"),
     ("EG.props.C11", "C11_other_objects_untouched"),
+    ("EG.props.C11", "C11_update_never_unavailable"),
 ]
 _HOOKS = {"pkg/util/ratelimiter/zz_verif_c11_hook.go": "harness/pipeline/zz_verif_c11_hook_rl.go",
           "pkg/filters/proxy/zz_verif_c11_hook.go": "harness/pipeline/zz_verif_c11_hook_proxy.go"}
@@ -200,6 +201,8 @@ def _enc_tc(i, o):
             ops.append(C("TGet", ns, nm))
         obs.append(Rec(to_err=B(st["err"]), to_panic=B(st["panic"]), to_ret=Z(st["ret"]),
                        to_evs=L([_tev(e) for e in st.get("events") or []]),
+                       to_mid=L([L([T(S(e["ns"]), _cat(e["cat"]), S(e["name"]), Z(e["id"])) for e in m or []])
+                                 for m in st.get("mid") or []]),
                        to_snap=L([T(S(e["ns"]), _cat(e["cat"]), S(e["name"]), Z(e["id"])) for e in st.get("snap") or []]),
                        to_spaces=L([S(x) for x in st.get("spaces") or []])))
     return Rec(tcc_ops=L(ops), tcc_obs=L(obs), tcc_bad=B(bad))
